@@ -612,13 +612,17 @@ impl<T: Send, R: ReceiverStore<T>> RendezvousShared<T, R> {
   /// and was removed (the owner keeps its payload); `false` if the handoff
   /// already committed (delivery stands).
   pub(crate) fn cancel_sender(&self, state_ptr: *const AtomicU8, state: &AtomicU8) -> bool {
+    // The WAITING -> CANCELLED transition must happen under the mutex like every
+    // other transition: a peer that already holds the lock and has popped this
+    // record publishes DONE unconditionally, which would overwrite a CANCELLED
+    // set outside the lock and commit a handoff the owner believes cancelled.
+    let mut core = self.core.lock();
     if state
       .compare_exchange(WAITING, CANCELLED, Ordering::SeqCst, Ordering::SeqCst)
       .is_err()
     {
       return false;
     }
-    let mut core = self.core.lock();
     if let Some(pos) = core.sender_waiters.iter().position(|r| r.state == state_ptr) {
       core.sender_waiters.remove(pos);
     }
@@ -629,13 +633,17 @@ impl<T: Send, R: ReceiverStore<T>> RendezvousShared<T, R> {
   /// `WAITING` and was removed; `false` if a sender already committed the
   /// handoff (the item now sits in the receiver's `dest`).
   pub(crate) fn cancel_receiver(&self, state_ptr: *const AtomicU8, state: &AtomicU8) -> bool {
+    // Under the mutex, see `cancel_sender`: otherwise a sender that popped this
+    // record overwrites CANCELLED with DONE, reports success, and the timed-out
+    // receiver drops the item it was handed.
+    let mut core = self.core.lock();
     if state
       .compare_exchange(WAITING, CANCELLED, Ordering::SeqCst, Ordering::SeqCst)
       .is_err()
     {
       return false;
     }
-    self.core.lock().receivers.remove_receiver(state_ptr);
+    core.receivers.remove_receiver(state_ptr);
     true
   }
 }
